@@ -459,7 +459,8 @@ RETCODE adfAddInCache ( struct AdfVolume * const  vol,
         newDirc.recordsNb = 0L;
         newDirc.nextDirC = 0L;
 
-        adfPutCacheEntry(&dirc, &offset, &newEntry);
+        offset = 0;
+        adfPutCacheEntry(&newDirc, &offset, &newEntry);
         newDirc.recordsNb++;
 
         rc = adfWriteDirCBlock ( vol, nCache, &newDirc );
